@@ -31,3 +31,13 @@ Theorem C10_translated_sequence_emission :
                             emit_ok src M a lL off mL di0 si s'.
 Proof. exact emit_exec. Qed.
 Print Assumptions C10_translated_sequence_emission.
+
+(* "match found" of the translated main loop — literal length, backward extension, forward extension, reduced
+   match length, sequence emission — is the model's `fseq`: the error return exactly when the model's sequence
+   does not fit, else dst = ... ++ enc_seq sq ++ ..., di advanced by its size, anchor = si = the model's end of
+   match (found_ok).  The statement is GenCompressBodySearch.found_exec's, taken verbatim (it spells out the
+   translated segment, some sixty lines). *)
+From LZ4V Require Import GenCompressBodySearch.
+Theorem C10_translated_match_found : ltac:(let t := type of found_exec in exact t).
+Proof. exact found_exec. Qed.
+Print Assumptions C10_translated_match_found.
